@@ -89,6 +89,9 @@ type World struct {
 	clients *clientSet
 	adv    *adversary
 	ended  bool
+	healed bool // C05 plans: the synchronous phase has begun
+	onHeal []func()
+	stop   bool // a monitor has seen all it needs: end the run
 	auditFetch bool // post-run audits: block fetches are served from the registry (every block available)
 }
 
@@ -177,6 +180,12 @@ func (w *World) runLoop() {
 		}
 		if w.plan.MaxViews > 0 && w.stats.MaxView >= w.plan.MaxViews {
 			break
+		}
+		if w.stop {
+			break
+		}
+		if w.plan.Sync != nil && !w.healed && w.plan.PrefixViews > 0 && w.stats.MaxView >= w.plan.PrefixViews {
+			w.heal()
 		}
 	}
 	w.stats.Steps = w.step
@@ -341,4 +350,17 @@ func (w *World) siSym(si hotstuff.SyncInfo) string {
 		fmt.Fprintf(&sb, "agg=%d/%d ", agg.View(), len(agg.QCs()))
 	}
 	return strings.TrimSpace(sb.String())
+}
+
+// heal starts the synchronous phase of a C05 plan: from now on the designated quorum exchanges all
+// its messages quickly and loses none.
+func (w *World) heal() {
+	if w.healed {
+		return
+	}
+	w.healed = true
+	w.logf("SYNC-PHASE quorum=%v", w.plan.Sync)
+	for _, f := range w.onHeal {
+		f()
+	}
 }
